@@ -1,6 +1,7 @@
 //! One collection history: arena setup, creation of the collection, generated operations,
 //! finalisation, teardown checks.
 
+use super::families::HintIter;
 use super::vecs::*;
 use super::*;
 use crate::arena::{PanicKind, classify, guarded};
@@ -179,6 +180,65 @@ where
     HistOut { callbacks: lv.callbacks, base_calls, viols: ctx.viols }
 }
 
+/// Creates a growable vector through one of its constructors (capacity, empty, from_elem, from an iterator with a
+/// size hint of the history's choosing, from an exact-size iterator, from an owned slice; panicking or `try_`).
+/// Evaluates to `(guarded result, initial model, constructor index)`.
+macro_rules! construct {
+    ($ctx:ident, $T:ident, $alloc:expr, $rev:expr, $cap:ident, $init:ident) => {{
+        let ctor = $ctx.rng.weighted(&[6, 2, 1, 2, 3, 2, 2]);
+        let try_ = $ctx.rng.bool();
+        let n0 = $init.len();
+        let x0 = $init.first().copied().unwrap_or(0);
+        let hint = *$ctx.rng.pick(&[n0, n0, 0, n0 / 2]);
+        let modv: Vec<u32> = $init.iter().map(|x| x % E::MODULUS).collect();
+        let (desc, model0): (String, Vec<u32>) = match ctor {
+            0 => (format!("try_with_capacity_in({})", $cap), vec![]),
+            1 => (format!("with_capacity_in({})", $cap), vec![]),
+            2 => ("new_in".into(), vec![]),
+            3 => (format!("{}from_elem_in({x0}, {n0})", if try_ { "try_" } else { "" }), vec![x0 % E::MODULUS; n0]),
+            4 | 5 => (
+                format!("{}from_iter{}_in({n0} elements, size hint {hint})", if try_ { "try_" } else { "" }, if ctor == 5 { "_exact" } else { "" }),
+                if $rev { modv.iter().rev().copied().collect() } else { modv.clone() },
+            ),
+            _ => (format!("{}from_owned_slice_in(Vec of {n0})", if try_ { "try_" } else { "" }), modv.clone()),
+        };
+        $ctx.begin(format!("create {}<{}> via {desc}", stringify!($T), E::NAME));
+        let mk = || -> Vec<E> { $init.iter().map(|x| E::make(*x)).collect() };
+        let alloc = $alloc;
+        let r = guarded(|| -> Result<_, AllocError> {
+            Ok(match ctor {
+                0 => $T::<E, _>::try_with_capacity_in($cap, alloc)?,
+                1 => $T::<E, _>::with_capacity_in($cap, alloc),
+                2 => $T::<E, _>::new_in(alloc),
+                3 if try_ => $T::try_from_elem_in(E::make(x0), n0, alloc)?,
+                3 => $T::from_elem_in(E::make(x0), n0, alloc),
+                4 if try_ => $T::try_from_iter_in(HintIter { it: mk().into_iter(), hint }, alloc)?,
+                4 => $T::from_iter_in(HintIter { it: mk().into_iter(), hint }, alloc),
+                5 if try_ => $T::try_from_iter_exact_in(mk(), alloc)?,
+                5 => $T::from_iter_exact_in(mk(), alloc),
+                _ if try_ => $T::try_from_owned_slice_in(mk(), alloc)?,
+                _ => $T::from_owned_slice_in(mk(), alloc),
+            })
+        });
+        (r, model0, ctor)
+    }};
+}
+
+/// what every constructor owes: the promised capacity and the modelled contents
+fn check_created<E: Elem>(v: &dyn VecCore<E>, ctx: &mut VCtx, ctor: usize, cap: usize, model: &[u32]) {
+    if ctor <= 1 && v.capacity().map_or(false, |c| c < cap) {
+        ctx.viol("C08", format!("with_capacity_promise_not_kept:{}", v.family()), format!("asked {cap} got {:?}", v.capacity()));
+    }
+    let now: Vec<u32> = v.slice().iter().map(|e| e.val()).collect();
+    if now != model {
+        ctx.viol("C08", format!("constructed_contents_differ:{}", v.family()), format!("{} :: real {:?} model {:?}", ctx.desc, &now[..now.len().min(24)], &model[..model.len().min(24)]));
+    }
+    if v.capacity().map_or(false, |c| c < now.len()) {
+        ctx.viol("C08", format!("capacity_below_len:{}", v.family()), format!("{:?} < {}", v.capacity(), now.len()));
+    }
+    ctx.rep.count(&format!("ctor:{ctor}"));
+}
+
 fn run_ops<E: Elem>(v: &mut dyn VecCore<E>, model: &mut Vec<u32>, ctx: &mut VCtx, n: usize, p0: Option<&(Vec<(usize, usize)>, Option<usize>, usize)>) {
     for _ in 0..n {
         if ctx.viols > 4 {
@@ -214,6 +274,8 @@ fn consuming<E: Elem>(ctx: &mut VCtx, name: &str, expect: Vec<u32>, f: impl FnOn
         }
         Err(p) => match classify(&p) {
             PanicKind::Fuel => ctx.ev("panic_injected"),
+            // a consuming operation that allocates (map) reports a refusal by unwinding
+            PanicKind::AllocError if ctx.refused() => ctx.ev("alloc_refused"),
             k => ctx.viol("C08", format!("unexpected_panic:{}", name.split_whitespace().next().unwrap_or("?")), format!("{k:?}")),
         },
     }
@@ -343,14 +405,42 @@ where
         }
         Fam::Fixed => {
             let cap = ctx.rng.range(0, 40);
-            ctx.begin(format!("create FixedBumpVec<{}> capacity {cap}", E::NAME));
-            let Ok(Ok(mut v)) = guarded(|| FixedBumpVec::<E>::try_with_capacity_in(cap, &bump)) else {
+            let ctor = ctx.rng.weighted(&[6, 2, 2, 2, 1, 1]);
+            let try_ = ctx.rng.bool();
+            let hint = *ctx.rng.pick(&[n0, n0, 0, n0 / 2]);
+            ctx.begin(format!(
+                "create FixedBumpVec<{}> via {}",
+                E::NAME,
+                match ctor {
+                    0 => format!("try_with_capacity_in({cap})"),
+                    1 => format!("with_capacity_in({cap})"),
+                    2 => format!("{}from_iter_in({n0} elements, size hint {hint})", if try_ { "try_" } else { "" }),
+                    3 => format!("{}from_iter_exact_in({n0} elements)", if try_ { "try_" } else { "" }),
+                    4 => format!("from_init(boxed slice of {n0})"),
+                    _ => format!("from_uninit(uninit slice of {cap})"),
+                }
+            ));
+            let mk = || -> Vec<E> { init.iter().map(|x| E::make(*x)).collect() };
+            let r = guarded(|| -> Result<FixedBumpVec<E>, AllocError> {
+                Ok(match ctor {
+                    0 => FixedBumpVec::try_with_capacity_in(cap, &bump)?,
+                    1 => FixedBumpVec::with_capacity_in(cap, &bump),
+                    2 if try_ => FixedBumpVec::try_from_iter_in(HintIter { it: mk().into_iter(), hint }, &bump)?,
+                    2 => FixedBumpVec::from_iter_in(HintIter { it: mk().into_iter(), hint }, &bump),
+                    3 if try_ => FixedBumpVec::try_from_iter_exact_in(mk(), &bump)?,
+                    3 => FixedBumpVec::from_iter_exact_in(mk(), &bump),
+                    4 => FixedBumpVec::from_init(bump.try_alloc_slice_move(mk())?),
+                    _ => FixedBumpVec::from_uninit(bump.try_alloc_uninit_slice(cap)?),
+                })
+            });
+            let Ok(Ok(mut v)) = r else {
                 tr::set_fuel(None);
                 return;
             };
-            if v.capacity() < cap {
-                ctx.viol("C08", "with_capacity_promise_not_kept:FixedBumpVec".into(), format!("asked {cap} got {}", v.capacity()));
+            if (2..=4).contains(&ctor) {
+                model = init.iter().map(|x| x % E::MODULUS).collect();
             }
+            check_created::<E>(&v, ctx, if ctor == 5 { 0 } else { ctor }, cap, &model);
             run_ops::<E>(&mut v, &mut model, ctx, p.ops, None);
             let (k, j) = (ctx.rng.range(0, 4), ctx.rng.range(0, 4));
             let pick = ctx.rng.below(4);
@@ -382,15 +472,14 @@ where
         }
         Fam::Vec => {
             let cap = if ctx.rng.bool() { 0 } else { ctx.rng.range(1, 30) };
-            ctx.begin(format!("create BumpVec<{}> capacity {cap}", E::NAME));
             let s = bump.as_scope();
-            let Ok(Ok(mut v)) = guarded(|| BumpVec::<E, &BumpScope<A, S>>::try_with_capacity_in(cap, s)) else {
+            let (r, model0, ctor) = construct!(ctx, BumpVec, s, false, cap, init);
+            let Ok(Ok(mut v)) = r else {
                 tr::set_fuel(None);
                 return;
             };
-            if v.capacity() < cap {
-                ctx.viol("C08", "with_capacity_promise_not_kept:BumpVec".into(), format!("asked {cap} got {}", v.capacity()));
-            }
+            model = model0;
+            check_created::<E>(&v, ctx, ctor, cap, &model);
             run_ops::<E>(&mut v, &mut model, ctx, p.ops, None);
             let (k, j) = (ctx.rng.range(0, 4), ctx.rng.range(0, 4));
             let pick = ctx.rng.below(8);
@@ -407,13 +496,37 @@ where
                         });
                         m.iter().map(|e| e.val()).collect()
                     }),
-                    6 => consuming::<E>(ctx, "BumpVec::map to u32", model.clone(), || {
+                    6 if ctx.rng.bool() => consuming::<E>(ctx, "BumpVec::map to u32", model.clone(), || {
                         let m = v.map(|e| {
                             tr::burn();
                             e.val()
                         });
                         m.iter().copied().collect()
                     }),
+                    6 => {
+                        let expect = model.clone();
+                        let failed = std::cell::Cell::new(false);
+                        consuming::<E>(ctx, "BumpVec::try_map to u32", model.clone(), || {
+                            match v.try_map(|e| {
+                                tr::burn();
+                                e.val()
+                            }) {
+                                Ok(m) => m.iter().copied().collect(),
+                                Err(_) => {
+                                    // the source vector and its elements are gone with the failed call
+                                    failed.set(true);
+                                    expect
+                                }
+                            }
+                        });
+                        if failed.get() {
+                            if ctx.refused() {
+                                ctx.ev("alloc_refused");
+                            } else {
+                                ctx.viol("C07", "try_method_failed_without_cause:BumpVec:try_map".into(), ctx.desc.clone());
+                            }
+                        }
+                    }
                     _ => {
                         // splice: replace a range by new elements, dropping the iterator early or late
                         let len = model.len();
@@ -483,7 +596,6 @@ where
         Fam::Mut | Fam::Rev => {
             let rev = fam == Fam::Rev;
             let cap = if ctx.rng.bool() { 0 } else { ctx.rng.range(1, 30) };
-            ctx.begin(format!("create {}<{}> capacity {cap}", if rev { "MutBumpVecRev" } else { "MutBumpVec" }, E::NAME));
             let min_align = S::MIN_ALIGN;
             let up = S::UP;
             let finalise = ctx.rng.chance(2, 3);
@@ -493,17 +605,23 @@ where
                 let s = bump.as_mut_scope();
                 macro_rules! go {
                     ($T:ident, $name:literal) => {{
-                        let Ok(Ok(mut v)) = guarded(|| $T::<E, &mut BumpScope<A, S>>::try_with_capacity_in(cap, s)) else {
+                        let (r, model0, ctor) = construct!(ctx, $T, s, rev, cap, init);
+                        let Ok(Ok(mut v)) = r else {
                             tr::set_fuel(None);
                             return;
                         };
-                        if v.capacity() < cap {
-                            ctx.viol("C08", format!("with_capacity_promise_not_kept:{}", $name), format!("asked {cap} got {}", v.capacity()));
-                        }
+                        model = model0;
+                        check_created::<E>(&v, ctx, ctor, cap, &model);
                         check_positions::<E>(&v, ctx, &before, "creating");
                         run_ops::<E>(&mut v, &mut model, ctx, p.ops, Some(&before));
-                        tr::set_fuel(None);
-                        if finalise {
+                        let (k, j) = (ctx.rng.range(0, 4), ctx.rng.range(0, 4));
+                        if !finalise && ctx.rng.chance(1, 2) {
+                            // consuming operations that leave the bump position alone: the iterator / mapped vector
+                            // still sits in the free space and is dropped there
+                            go!(@consume $T, v, k, j);
+                            ctx.ev("mut_dropped_unfinalised");
+                        } else if finalise {
+                            tr::set_fuel(None);
                             ctx.begin(format!("{}::into_boxed_slice", $name));
                             final_len = v.len();
                             let b = v.into_boxed_slice();
@@ -512,11 +630,34 @@ where
                             ctx.ev(if rev { "commit_mut_rev" } else { "commit_mut" });
                             drop(b);
                         } else {
+                            tr::set_fuel(None);
                             ctx.begin(format!("drop {} without finalising", $name));
                             drop(v);
                             ctx.ev("mut_dropped_unfinalised");
                         }
                     }};
+                    (@consume MutBumpVec, $v:ident, $k:ident, $j:ident) => {
+                        if ctx.rng.bool() {
+                            consuming::<E>(ctx, "MutBumpVec::into_iter partially consumed", expect_both_ends(&model, $k, $j), || {
+                                let mut it = $v.into_iter();
+                                take_both_ends(&mut it, $k, $j)
+                            });
+                        } else {
+                            consuming::<E>(ctx, "MutBumpVec::map_in_place", model.iter().map(|x| x.wrapping_add(1) % E::MODULUS).collect(), || {
+                                let m = $v.map_in_place(|e| {
+                                    tr::burn();
+                                    E::make(e.val().wrapping_add(1))
+                                });
+                                m.iter().map(|e| e.val()).collect()
+                            });
+                        }
+                    };
+                    (@consume MutBumpVecRev, $v:ident, $k:ident, $j:ident) => {
+                        consuming::<E>(ctx, "MutBumpVecRev::into_iter partially consumed", expect_both_ends(&model, $k, $j), || {
+                            let mut it = $v.into_iter();
+                            take_both_ends(&mut it, $k, $j)
+                        });
+                    };
                 }
                 if rev {
                     go!(MutBumpVecRev, "MutBumpVecRev")
